@@ -151,7 +151,56 @@ func netCheckWrite(rep *Reporter, h string, n int, full bool) {
 	}
 }
 
+// netCheckWriteSeq: a sequence of header writes (some of them to a writer that fails half-way):
+// every write that succeeds emits exactly the documented header of its own length, whatever
+// happened to the writes before it.
+func netCheckWriteSeq(rep *Reporter, h string, ops string) {
+	line := fmt.Sprintf("N %s writeseq %s", h, ops)
+	safely(rep, line, func() {
+		res := impl.Run(line)
+		rep.Case(line)
+		parts := strings.Split(res, " | ")
+		opl := strings.Split(ops, ",")
+		if len(parts) != len(opl) {
+			return
+		}
+		for i, op := range opl {
+			nstr := op[1:]
+			if op[0] == 'f' {
+				if kn := strings.SplitN(op[1:], ":", 2); len(kn) == 2 {
+					nstr = kn[1]
+				}
+			}
+			n, err := strconv.Atoi(nstr)
+			if err != nil {
+				return
+			}
+			if parts[i] == "panic" {
+				rep.Viol("WriteTo panicked", line, fmt.Sprintf("write number %d", i+1))
+				return
+			}
+			if !strings.HasPrefix(parts[i], "ok ") {
+				continue
+			}
+			if !netRepresentable(h, n) {
+				rep.Viol("a length the header can not represent was accepted by SetLength and WriteTo", line, fmt.Sprintf("write number %d: %s", i+1, parts[i]))
+				return
+			}
+			if want := "ok " + impl.Hex(gen.NetRef(h, n)); parts[i] != want {
+				rep.Viol("WriteTo output is not the documented header of the length set (sequence of writes, some on a failing writer)", line,
+					fmt.Sprintf("write number %d (length %d): %s, documented %s", i+1, n, parts[i], want))
+				return
+			}
+		}
+	})
+}
+
 func runC16(t gen.Tier, r *gen.Rng, rep *Reporter) {
+	for _, h := range impl.NetHeaders {
+		for i := 0; i < t.N(150, 3000); i++ {
+			netCheckWriteSeq(rep, h, gen.NetWriteSeq(r, h))
+		}
+	}
 	isBoundary := map[int]bool{}
 	for _, n := range gen.NetBoundaries {
 		isBoundary[n] = true
@@ -233,6 +282,8 @@ func linesC16(lines []string, rep *Reporter) {
 			continue
 		}
 		switch t[2] {
+		case "writeseq":
+			netCheckWriteSeq(rep, t[1], t[3])
 		case "write":
 			n, err := strconv.Atoi(t[3])
 			if err != nil {
